@@ -150,20 +150,25 @@ def unitNs (u : String) : Option Nat :=
   | "ns" => some 1 | "us" => some 1000 | "ms" => some 1000000 | "s" => some 1000000000
   | "m" => some 60000000000 | "h" => some 3600000000000 | _ => none
 
-/-- `time.ParseDuration` for whole numbers: one or more `<digits><unit>` groups (no fractions, no sign; fuel = length) -/
-def parseGroups : Nat → List Char → Option Nat
-  | 0, _ => none
-  | fuel + 1, cs =>
+/-- `time.ParseDuration` for whole numbers: one or more `<digits><unit>` groups (no fractions; fuel = length), with its
+overflow rules: a number above 2^63 is refused (`leadingInt`), a group whose value exceeds `2^63 / unit` is refused, and so is
+a running total above 2^63.  `acc` is the total so far. -/
+def parseGroups : Nat → Nat → List Char → Option Nat
+  | 0, _, _ => none
+  | fuel + 1, acc, cs =>
     let ds := cs.takeWhile Char.isDigit
     let rest := cs.dropWhile Char.isDigit
     let us := rest.takeWhile (fun c => !c.isDigit)
     let rest' := rest.dropWhile (fun c => !c.isDigit)
-    if ds.isEmpty || ds.length > 9 then none else
+    if ds.isEmpty then none else
     match unitNs (String.ofList us) with
     | none => none
     | some k =>
-      let v := (String.ofList ds).toNat! * k
-      if rest'.isEmpty then some v else (parseGroups fuel rest').map (· + v)
+      let n := (String.ofList ds).toNat!
+      if n > 2 ^ 63 || n > 2 ^ 63 / k then none else
+      let d := acc + n * k
+      if d > 2 ^ 63 then none else
+      if rest'.isEmpty then some d else parseGroups fuel d rest'
 
 /-- `config.Timeout.UnmarshalText`: a value that ends in a digit gets the unit "ms"; then `time.ParseDuration` (whole
 numbers; an optional sign; "0" alone is zero).  The stored value is the number of nanoseconds. -/
@@ -177,7 +182,9 @@ def parseTimeout (v : CBytes) : Option Int :=
     | '+' :: r => (false, r)
     | r => (false, r)
   if body == ['0'] then some 0 else
-  (parseGroups (body.length + 1) body).map (fun n => if neg then -(n : Int) else (n : Int))
+  match parseGroups (body.length + 1) 0 body with
+  | none => none
+  | some n => if neg then some (-(n : Int)) else if n > 2 ^ 63 - 1 then none else some (n : Int)
 
 /-- typed assignment (`unmarshalValue` / `flag.Value.Set`): the canonical stored value, or `none` = error.
     `fromFile` selects the file's conventions (empty value = zero value; yes/no/on/off words). -/
